@@ -365,6 +365,8 @@ def run_pool(args, jobs, workers=12, job_timeout=20.0, env=None, total_timeout=7
                 if l is None:
                     break
                 l = l.strip()
+                if SCRATCH:
+                    l = l.replace(REPO + "/", "/repo/")       # panic locations name the scratch worktree
                 if not l.startswith("{"):
                     continue
                 try:
